@@ -22,7 +22,7 @@ RULE = ('hosts = {real Linux interpreter, Darwin-shaped tables, scrambled tables
 QUICK_SHARDS = 1
 NO_OPTIMIZED_FLAVOUR = True      # the hosts are subprocesses of their own; the -O / -OO interpreters are among them
 THOROUGH_SHARDS = 1
-HOSTS = ('real', 'darwin', 'scrambled', 'bsdlike', 'windowslike', 'real-hashseed-1', 'real-hashseed-4711', 'real-ascii-console',
+HOSTS = ('real', 'darwin', 'scrambled', 'permuted', 'bsdlike', 'windowslike', 'real-hashseed-1', 'real-hashseed-4711', 'real-ascii-console',
          'real-python-O', 'real-python-OO')
 
 
